@@ -40,7 +40,7 @@ var admins = []adminT{
 	}, rig.THeartBt},
 }
 
-var damages = []string{"bad-checksum", "bad-length", "non-numeric-body-field", "non-numeric-header-field", "bad-checksum+missing-seqnum", "bad-checksum+non-numeric-seqnum", "bad-length+missing-seqnum", "none(state-not-permitted)", "state-not-permitted+missing-seqnum", "state-not-permitted+non-numeric-seqnum", "non-numeric-seqnum", "empty-seqnum", "empty-numeric-body-field", "checksum-plus-256", "checksum-unpadded-or-signed", "equals-sign-lost-before-seqnum", "doubled-delimiter-before-seqnum", "equals-sign-lost-after-seqnum"}
+var damages = []string{"bad-checksum", "bad-length", "non-numeric-body-field", "non-numeric-header-field", "bad-checksum+missing-seqnum", "bad-checksum+non-numeric-seqnum", "bad-length+missing-seqnum", "none(state-not-permitted)", "state-not-permitted+missing-seqnum", "state-not-permitted+non-numeric-seqnum", "non-numeric-seqnum", "empty-seqnum", "empty-numeric-body-field", "checksum-plus-256", "checksum-unpadded-or-signed", "equals-sign-lost-before-seqnum", "doubled-delimiter-before-seqnum", "equals-sign-lost-after-seqnum", "bodylength-padded-and-too-large-by-the-padding"}
 
 func damage(kind string, a adminT, m []byte) ([]byte, bool, bool) {
 	// returns message, ok, seqUsable
@@ -112,6 +112,23 @@ func damage(kind string, a adminT, m []byte) ([]byte, bool, bool) {
 			out = append(out, []byte(tag)...)
 			out = append(out, m[at+1+len(tag)+1:]...)
 		}
+		return out, true, true
+	case "bodylength-padded-and-too-large-by-the-padding":
+		// 9=071 (or 9=+71) where the body has 70 bytes: the value is wrong by exactly the surplus characters of its own
+		// spelling; the CheckSum fits the bytes as sent
+		fs, err := fixref.TokenizeLoose(m)
+		if err != nil || len(fs) < 4 {
+			return nil, false, true
+		}
+		n, _ := strconv.Atoi(string(fs[1].Val))
+		pad := []string{"0", "+", "00"}[len(m)%3]
+		var out []byte
+		out = append(out, (fs[0].Tag + "=" + string(fs[0].Val) + "\x01")...)
+		out = append(out, ("9=" + pad + strconv.Itoa(n+len(pad)) + "\x01")...)
+		for _, f := range fs[2 : len(fs)-1] {
+			out = append(out, (f.Tag + "=" + string(f.Val) + "\x01")...)
+		}
+		out = append(out, ("10=" + fixref.Sum3(out) + "\x01")...)
 		return out, true, true
 	case "empty-numeric-body-field":
 		if a.numeric == "" {
